@@ -8,6 +8,7 @@ LEVEL = "exploration"
 EXHAUSTIVE = True
 SHARDS = {"quick": 1, "thorough": 1}
 TIMEOUT = {"quick": 300, "thorough": 600}
+MIN_EVALUATIONS = {"quick": 3000, "thorough": 3000}  # fewer oracle evaluations than this means the workload collapsed: inconclusive
 RULE = ("enumerates every EnumMap subclass found by walking the pycomm3 package x every public member x "
         "9 letter-casing classes (name->code by [] and get, membership), every member code (code->name by [] "
         "and get, membership, name carries the code), 40 non-member probes per table for membership consistency, "
